@@ -28,7 +28,7 @@ theorem lateOk_of (c : Checker) (d : TaskDef) (r : Rcd) (fs : FS) (hck : r.check
       | none => simp [hf, hr] at this
       | some st =>
         simp only [hf, hr, beq_iff_eq] at this
-        exact ⟨cur, rfl, by simp [depVerdict, hr, this]⟩
+        exact ⟨cur, rfl, by simp [depVerdict, hr, this, notSaved, hdeps, hp]⟩
   simp [lateOk, h1, h2, h3]
 
 /-- up-to-date ⇒ the record already has the property -/
@@ -59,7 +59,11 @@ theorem recorded_of_upToDate (c : Checker) (d : TaskDef) (r : Rcd) (fs : FS) (re
           unfold depRecorded
           cases hr : r.fstate p with
           | none => simp [hr] at hv
-          | some st => simp [hr] at hv; simp [hcur, hv]
+          | some st =>
+            simp only [hr] at hv
+            split at hv
+            · cases hv
+            · simp [hcur, hv]
 
 theorem statusOf_error_missing (c : Checker) (d : TaskDef) (r : Rcd) (fs : FS) (resOf : Name → Option Res)
     (h : statusOf true c d r fs resOf = .error) : d.deps.any (depMissing fs) = true := by
